@@ -296,6 +296,13 @@ def lookupPrev (s : Sys) (o : OSet) : List Prev :=
 def availableCond (gen : Nat) (ok : Bool) (reason msg : String) : Cond :=
   { type := "Available", status := if ok then "True" else "False", reason := reason, obsGen := gen, msg := msg }
 
+/-- first previous revision, in order, that is missing (`some true`) or reports revision 0
+(`some false`). -/
+def firstProblem : List (Option OSet) → Option Bool
+  | [] => none
+  | none :: _ => some true
+  | some p :: rest => if p.revision = 0 then some false else firstProblem rest
+
 /-- `GenericObjectSetController.Reconcile` for the ObjectSet called `name`. -/
 def reconcile (cfg : Cfg) (rm : Remotes) (name : String) (s : Sys) : Sys × Res :=
   match s.sets name with
@@ -337,17 +344,17 @@ def reconcile (cfg : Cfg) (rm : Remotes) (name : String) (s : Sys) : Sys × Res 
           if mem.revision ≠ 0 then (s, .ok mem)
           else if mem.previous.isEmpty then (s, .ok { mem with revision := 1 })
           else
-            let prevs := mem.previous.map s.sets
-            if prevs.any (·.isNone) then (s, .error .err)
-            else
-              -- the loop returns at the first previous revision that has not reported yet
-              let revs := prevs.filterMap fun p => p.map (·.revision)
-              if revs.any (· = 0) then (s, .error .requeue)
-              else
-                let mem := { mem with revision := revs.foldl max 0 + 1 }
-                match s.updateStatus mem with
-                | (s, .ok mem) => (s, .ok mem)
-                | (s, .error _) => (s, .error .err)
+            -- the loop returns at the first previous revision that is missing (error) or has not
+            -- reported its revision yet (requeue), in spec order
+            match firstProblem (mem.previous.map s.sets) with
+            | some true => (s, .error .err)
+            | some false => (s, .error .requeue)
+            | none =>
+              let revs := (mem.previous.map s.sets).filterMap fun p => p.map (·.revision)
+              let mem := { mem with revision := revs.foldl max 0 + 1 }
+              match s.updateStatus mem with
+              | (s, .ok mem) => (s, .ok mem)
+              | (s, .error _) => (s, .error .err)
         -- on `requeue` the remaining reconcilers are skipped but status is still reported
         let finish (s : Sys) (mem : OSet) (res : Res) : Sys × Res :=
           -- reportPausedCondition (no delegated phases: phasesArePaused = spec paused)
